@@ -25,6 +25,7 @@ class Spec:
         self.objty = {}
         self.raises = {}
         self.reacts = {}          # (obj, method, k) -> entity the callback passes to delete_entity
+        self.react_ops = {}       # (obj, method, k) -> operations the callback performs on the world
         self.forgotten = set()    # objects the program has dropped its references to
         self.ops = []
         self.ents = []
@@ -55,6 +56,9 @@ class Spec:
                 self.objty[int(t[1])] = int(t[2].split('=')[1])
             elif t[0] == 'raise':
                 self.raises[(int(t[1]), t[2], int(t[3]))] = t[4]
+            elif t[0] == 'react' and t[4] == 'do':
+                from harness.models.disp import parse_ops
+                self.react_ops[(int(t[1]), t[2], int(t[3]))] = parse_ops(t[5:])
             elif t[0] == 'react':
                 self.reacts[(int(t[1]), t[2], int(t[3]))] = int(t[5])
             elif t[0] == 'ents':
@@ -83,6 +87,12 @@ class Spec:
         self.cur_cbs, self.cur_res = [], "ok"
         self.intent_prio = {}
         self.failed_op = None
+        self.counter_unknown = False    # a callback may have created entities: the id counter moved
+        self.unordered = set()          # entities whose component order is not known (after `adopt`)
+        self.pending_unknown = False    # a release was cut short inside a re-entrant callback
+        self.reentered = False          # some callback has called back into the world
+        self.excused = set()            # handlers left registered by an on_remove that raised
+        self.maybe_dead = set()         # identifiers a callback may have passed to delete_entity
         self.ambiguous = False
         self.findings = []
         self.failed = False       # a scripted callback exception has propagated
@@ -171,8 +181,18 @@ class Spec:
         self.detach_events(c, e, out)
 
     def detach_all(self, e, out):
-        for T in list(self.attached[e]):
-            self.detach(e, T, out)
+        # (a callback of an earlier component may have detached a later one already: each is detached
+        # once — with its on_remove — by whoever gets there first)
+        row = self.attached[e]
+        types = list(row)
+        if e in self.unordered:
+            # the order in which the entity received its components is not known (state taken over from the
+            # queries): follow the order of the implementation's callbacks, every component still exactly once
+            seen = [int(c.split()[1]) for c in self.cur_cbs if c.split()[1].isdigit()]
+            types.sort(key=lambda T: seen.index(row[T]) if row[T] in seen else len(seen))
+        for T in types:
+            if T in self.attached.get(e, {}):
+                self.detach(e, T, out)
 
     def op(self, t, ret, out):
         """Apply one operation; `ret` is the implementation's returned token (used as a validated
@@ -180,7 +200,11 @@ class Spec:
         k = t[0]
         if k == 'create':
             comps = [int(x) for x in split_list(t[2])]
-            if t[1] == 'auto':
+            if t[1] == 'auto' and self.counter_unknown and ret is not None and ret.isdigit() \
+                    and int(ret) >= self.counter and int(ret) not in self.attached:
+                e = int(ret)
+                self.counter, self.counter_unknown = e + 1, False
+            elif t[1] == 'auto':
                 while self.counter in self.attached:
                     self.counter += 1
                 e = self.counter
@@ -240,6 +264,9 @@ class Spec:
             return '-'
         if k == 'process':
             order = self.sweeps.pop(0) if self.sweeps else list(self.dead)
+            extra = set(order) - set(self.dead)
+            if extra and extra <= self.maybe_dead and set(self.dead) <= set(order):
+                self.dead = list(order)
             if sorted(order) != sorted(self.dead):
                 raise Mismatch('sweep-set', f'entities awaiting deletion {sorted(self.dead)}, swept {order}')
             self.dead = []
@@ -253,7 +280,14 @@ class Spec:
                     self.dispatch('on_update', t[1], out)
             return '-'
         if k == 'clear':
-            for e in list(self.attached):
+            ents = list(self.attached)
+            if self.unordered:
+                seen = [c.split()[3] for c in self.cur_cbs if len(c.split()) > 3]
+                first = {}
+                for i, a in enumerate(seen):
+                    first.setdefault(a, i)
+                ents.sort(key=lambda e: first.get(f'e{e}', len(seen)))
+            for e in ents:
                 self.detach_all(e, out)
             self.dead = []
             for p in list(self.procs):
@@ -426,6 +460,8 @@ class Spec:
                 merged[e] = keep
         for e, row in new.items():
             for T, c in row.items():
+                if T not in merged.get(e, {}):
+                    self.unordered.add(e)
                 merged.setdefault(e, {}).setdefault(T, c)
         for e in entities:
             if e not in merged:
@@ -437,13 +473,13 @@ class Spec:
         seen = {}
         for q in procs:
             T = self.objty[q]
-            if T in seen:
+            if T in seen and not self.reentered:
                 raise Mismatch('processors-order', f'processors {procs} holds two processors of one type '
                                f'({seen[T]} and {q})')
             seen[T] = q
         pr = [self.iprio.get(q, self.intent_prio.get(q, self.prio[self.objty[q]])) if q in self.procs
               else self.intent_prio.get(q, self.iprio.get(q, self.prio[self.objty[q]])) for q in procs]
-        if pr != sorted(pr):
+        if pr != sorted(pr) and not self.reentered:
             raise Mismatch('processors-order', f'processors {procs} with priorities {pr} are not in '
                            'ascending priority order')
         for q, x in zip(procs, pr):
@@ -627,6 +663,7 @@ def _check_ops(sp, groups):
                 return [{'sig': 'shape', 'what': f'expected snapshot lines, got {g}'}]
             try:
                 if sp.failed:
+                    mode = sp.failed
                     if not sp.adopt(g[1], sp.failed_op):
                         continue
                     sp.failed = False
@@ -648,6 +685,47 @@ def _check_ops(sp, groups):
                     return [{'sig': 'process-keeps-failing',
                              'what': 'process() raised KeyError again on a later frame'}]
                 sp.failed = True
+            continue
+        # does a callback of this operation call back into the world (scripted `react … do …`)?  The statement
+        # does not fix how the nested calls interleave with the steps of the operation in progress (that
+        # is the model's business: it mirrors the code statement by statement and is compared exactly);
+        # the oracle takes such an operation as it comes, keeps its invocation counters in step, and judges
+        # the world it leaves behind: every query must agree with every other one at the next snapshot
+        fired, calls = False, dict(sp.calls)
+        for cb in cbs:
+            w = cb.split()
+            if w[1].isdigit():
+                key = (int(w[1]), w[2])
+                k = calls.get(key, 0)
+                calls[key] = k + 1
+                fired = fired or (key[0], key[1], k) in sp.react_ops
+        # from the first such operation on, what the world cannot show through its queries (instance
+        # priorities, the id counter, postponed callbacks, marks on identifiers that own nothing) is no
+        # longer known to the oracle: the rest of the scenario is judged by the agreement of the queries at
+        # every snapshot, the exact behaviour by the comparison with the model
+        fired = fired or sp.reentered
+        if fired:
+            sp.reentered = True
+            sp.calls = calls
+            if t[0] == 'process' and sp.sweeps:
+                sp.sweeps.pop(0)
+            if not sp.enabled and t[0] != 'enable':
+                sp.pending_unknown = True       # nested calls postponed callbacks of their own
+            if t[0] == 'enable':
+                sp.enabled = bool(int(t[1]))
+                if sp.enabled:
+                    # everything postponed was handed out (or, if a callback raised, an unknown rest stays)
+                    sp.pending, sp.pending_unknown = [], res != 'ok'
+            # deferred deletions a callback may have asked for (also of identifiers that own nothing, which
+            # no query shows): the next sweep may include them
+            for ops in sp.react_ops.values():
+                for x in ops:
+                    if x[0] == 'delete' and x[2] == '0':
+                        sp.maybe_dead.add(int(x[1]))
+            if res not in ('ok',) and not res.startswith('raised'):
+                return [{'sig': 'outcome' + territory(), 'what': f'`{" ".join(t)}`: got `{res}`'}]
+            sp.failed, sp.failed_op = 'reentrant' if res == 'ok' else True, t[0]
+            sp.counter_unknown = True
             continue
         out = []
         want_res, want_ret = 'ok', '-'
